@@ -425,8 +425,14 @@ impl Component for Classifier {
          duplicate ids, plus malformed ops. Non-trivial: at least one weak verdict, or a bypass tick that cleared a weak link."
     }
 
-    fn gen_case(&mut self, rng: &mut Rng, _tier: Tier, _idx: usize) -> Vec<String> {
+    fn gen_case(&mut self, rng: &mut Rng, tier: Tier, idx: usize) -> Vec<String> {
         let mut ops = Vec::new();
+        // the real event loop: a handful of scenarios per run (each costs about a second of wall time)
+        let every = if matches!(tier, Tier::Quick) { 100 } else { 40 };
+        if idx % every == 17 {
+            let sc = verif_harness::looptrace::generate(rng, false);
+            return vec![format!("looptrace {}", sc.render())];
+        }
         let scenario = rng.below(19);
         match scenario {
             0 | 1 | 2 => {
@@ -819,6 +825,24 @@ impl Component for Classifier {
                     .collect();
                 self.pool = conns;
                 format!("sel={} est={} links=[{}]", res.selected_delay_ms, res.estimated_max_delay_ms, links.join(";"))
+            }
+            ["looptrace", rest @ ..] => {
+                // the REAL event loop end to end (see verif_harness::looptrace): C17 clauses on the per-tick
+                // verdicts it publishes, across real reloads, late joiners and reconnects. Monitor only.
+                let Some(sc) = verif_harness::looptrace::Scenario::parse(rest) else { return "bad-op".into() };
+                match verif_harness::looptrace::run(&sc) {
+                    Err(why) => mon.count(why),
+                    Ok(trace) => {
+                        mon.count("looptrace-scenario");
+                        mon.count(&format!("looptrace-reloads-sent-{}", trace.last().map(|t| t.reloads_sent).unwrap_or(0)));
+                        if trace.iter().any(|t| t.links.iter().any(|l| l.weak)) {
+                            mon.count("looptrace-with-weak-verdict");
+                            mon.nontrivial();
+                        }
+                        verif_harness::looptrace::monitors_c17(&trace, &sc, mon);
+                    }
+                }
+                "looptrace-ok".into()
             }
             _ => "bad-op".into(),
         }
